@@ -606,6 +606,18 @@ def r6(run: Run, src, g, em, rt, forms):
     run.check(ok, 'C01.R6', 'postfix %/form', 'percent-form',
               f'`x%` is printed as `{got}`; expected self._normalize_float_number(X / 100): an atomic call that divides by 100',
               fact=got, loc=loc)
+    # the same % followed directly by a signed operand (x%+y, x%-y) is parsed as [operand, % operator, expression]: there too the
+    # % must become the division by 100 of the left operand, never Python's modulo
+    bf = forms.get(('bin', '%'))
+    if bf is not None and bf[0] is not None:
+        sk2, la2, ra2, e2 = bf
+        txt = sk2.text
+        head = f'self._normalize_float_number({la2} / 100)' if la2 else None
+        ok2 = head is not None and txt.startswith(head) and '%' not in txt
+        run.check(ok2, 'C01.R6', 'postfix % before a signed operand/form', 'percent-as-modulo',
+                  f'`x%+y` / `x%-y` (the % parsed as an operator between an operand and a signed expression) is printed as '
+                  f'`{_plain(txt)}`; the left operand must be divided by 100 through the normaliser -- a bare `%` is Python\'s modulo',
+                  fact=_plain(txt), loc=loc)
     for cp in rt.copies():
         fn = cp.members.get('_normalize_float_number')
         if fn is None:
